@@ -1392,7 +1392,82 @@ class C06(Prop):
                 res.distribution[f"build:{tag}"] += 1
 
 
-REGISTRY = {"C06": C06(), "C15": C15(), "C16": C16(), "C05": C05(), "C18": C18(), "C08": C08(), "C07": C07(), "C03": C03(), "C02": C02(), "C20": C20(), "C09": C09(), "C10": C10(), "C14": C14(), "C12": C12()}
+# ------------------------------------------------------------------------------------------
+# C13
+
+class C13(Prop):
+    rule = ("fixed corner cases (every scalar literal alone and with surrounding whitespace, escaped strings, duplicate keys) and generated well-formed "
+            "values of every type (a third of them bare scalars); each text is turned into a LazyValue three ways (serde, get from a wrapping object, array "
+            "iterator) and into an OwnedLazyValue five ways (serde, From<LazyValue> of the serde and get values, clone before/after the caches are "
+            "loaded, take) plus both embedded in a typed struct; every lazy value is walked through its own accessors only (type, as_bool, numbers, "
+            "as_str, iterators, get) and must dump as the specification's tree of the text, serialize to the trimmed text verbatim (before and after its "
+            "caches are loaded), and two owned-lazy mutations (append a member; replace the first member through get_mut / pointer_mut) must serialize as "
+            "the Lean one-level-parse model says (untouched members verbatim); non-trivial = a container or an escaped string")
+    trusted = ["number accessors of lazy values are compared with the specification's classification (C07 is about their exactness)"]
+    assumptions = ["inputs are well-formed (others are only checked for rejection by every entry)"]
+
+    def explore(self, ctx, res):
+        name = "c13"
+        cases_path = generate(ctx, name)
+        impl, model, crashed, err = run_stream(ctx, name, cases_path)
+        with open(cases_path) as f:
+            cases = f.read().splitlines()
+        if crashed or len(impl) != len(cases):
+            idx = min(len(impl), len(cases) - 1)
+            res.oracle_failures.append(dict(key="c13:process-abort", case=cases[idx], detail=f"harness exited abnormally after {len(impl)} of {len(cases)} cases: {err[-300:]}"))
+        n = min(len(impl), len(cases))
+        for i in range(n):
+            case = cases[i]
+            res.evaluations += 1
+            I = ctx["parse_fields"](impl[i])
+            M = ctx["parse_fields"](model[i]) if model and i < len(model) else {}
+            if model is not None and not M:
+                res.model_disagreements.append(dict(key="c13:model-output-missing", case=case, detail=""))
+                continue
+            if len(res.samples) < 6 and i % max(1, n // 6) == 0:
+                res.samples.append({"case": case[:200], "impl": impl[i][:300], "model": (model[i][:300] if model and i < len(model) else None)})
+            spec = M.get("spec")
+            if spec == "R":
+                for k, v in I.items():
+                    if k.startswith(("l.", "o.")) and v not in ("R",) and not v.startswith("PANIC"):
+                        res.distribution["accepts-ill-formed(see C02)"] += 1
+                continue
+            raw = M.get("raw", "")
+            if M.get("kind") != "ok":
+                res.model_disagreements.append(dict(key="c13:model-kind-by-first-byte-disagrees-with-tree", case=case, detail=model[i][:200]))
+            if any(ch in spec for ch in "[{") or "5c" in raw:
+                res.nontrivial(case)
+            res.distribution["kind:" + (spec[0] if spec else "?")] += 1
+            for k, v in I.items():
+                if v == "PANIC":
+                    res.oracle_failures.append(dict(key=f"C13|{k}|panic", case=case, detail="the library panicked"))
+                    continue
+                if k.startswith("l."):
+                    parts = v.split("|")
+                    if len(parts) != 3 or parts[0] != spec:
+                        res.oracle_failures.append(dict(key=f"C13|{k}|view-differs-from-dom-of-raw-text", case=case, detail=f"view {parts[0][:200]} spec {spec[:200]}"))
+                    elif parts[1] != raw or parts[2] != raw:
+                        res.oracle_failures.append(dict(key=f"C13|{k}|not-verbatim", case=case, detail=f"ser {parts[1][:160]} raw {parts[2][:160]} spec {raw[:160]}"))
+                elif k == "o.embedded":
+                    parts = v.split("!")
+                    want_back = (b'{"x":7,"l":' + bytes.fromhex(raw) + b',"o":' + bytes.fromhex(raw) + b'}').hex()
+                    if len(parts) != 3 or parts[0].split("|")[0] != spec or parts[1].split("|")[0] != spec:
+                        res.oracle_failures.append(dict(key=f"C13|{k}|view-differs-from-dom-of-raw-text", case=case, detail=v[:300]))
+                    elif parts[2] != want_back:
+                        res.oracle_failures.append(dict(key=f"C13|{k}|struct-not-reproduced", case=case, detail=f"got {parts[2][:200]} want {want_back[:200]}"))
+                elif k.startswith("o."):
+                    parts = v.split("|")
+                    if len(parts) != 3 or parts[0] != spec:
+                        res.oracle_failures.append(dict(key=f"C13|{k}|view-differs-from-dom-of-raw-text", case=case, detail=f"{v[:200]} spec {spec[:200]}"))
+                    elif parts[1] != raw or parts[2] != raw:
+                        res.oracle_failures.append(dict(key=f"C13|{k}|not-verbatim", case=case, detail=f"ser {parts[1][:160]} / {parts[2][:160]} spec {raw[:160]}"))
+                elif k == "m.push" and v != M.get("push"):
+                    res.oracle_failures.append(dict(key="C13|m.push|mutated-container-serializes-differently", case=case, detail=f"impl {v[:200]} model {M.get('push','')[:200]}"))
+                elif k == "m.replace0" and v != M.get("repl"):
+                    res.oracle_failures.append(dict(key="C13|m.replace0|mutated-container-serializes-differently", case=case, detail=f"impl {v[:200]} model {M.get('repl','')[:200]}"))
+
+
+REGISTRY = {"C13": C13(), "C06": C06(), "C15": C15(), "C16": C16(), "C05": C05(), "C18": C18(), "C08": C08(), "C07": C07(), "C03": C03(), "C02": C02(), "C20": C20(), "C09": C09(), "C10": C10(), "C14": C14(), "C12": C12()}
 for _k, _v in REGISTRY.items():
     _v.pid = _k
 
